@@ -65,6 +65,9 @@ class Terminologies(dict):
     """
     loading = {}
     reload_cache = False
+    # Guards every check-then-act sequence on the two shared tables
+    # (the loaded documents in self and the loader threads in loading).
+    _lock = threading.Lock()
 
     def load(self, url):
         """
@@ -73,12 +76,15 @@ class Terminologies(dict):
         :param url: location of an odML XML file.
         :return: The odML document loaded from url.
         """
-        if url in self:
-            return self[url]
+        with self._lock:
+            if url in self:
+                return self[url]
+            thread = self.loading.get(url)
 
-        if url in self.loading:
-            self.loading[url].join()
-            self.loading.pop(url, None)
+        if thread is not None:
+            thread.join()
+            with self._lock:
+                self.loading.pop(url, None)
             return self.load(url)
 
         return self._load(url)
@@ -104,7 +110,12 @@ class Terminologies(dict):
             print("Failed to load %s due to parser errors" % url)
             print(' "%s"' % exc)
             term = None
-        self[url] = term
+        with self._lock:
+            if url in self:
+                # A concurrent load of the same file has been faster; keep
+                # its result so that all callers share one cached object.
+                return self[url]
+            self[url] = term
         return term
 
     def deferred_load(self, url):
@@ -113,10 +124,12 @@ class Terminologies(dict):
 
         :param url: location of an odML XML file.
         """
-        if url in self or url in self.loading:
-            return
-        self.loading[url] = threading.Thread(target=self._load, args=(url,))
-        self.loading[url].start()
+        with self._lock:
+            if url in self or url in self.loading:
+                return
+            thread = threading.Thread(target=self._load, args=(url,))
+            self.loading[url] = thread
+            thread.start()
 
     def refresh(self, url):
         """
@@ -126,7 +139,8 @@ class Terminologies(dict):
         :param url: location of an odML XML file.
         """
         self.reload_cache = True
-        self.clear()
+        with self._lock:
+            self.clear()
         self.load(url)
         self.reload_cache = False
 
